@@ -151,6 +151,7 @@ def build(tier, seed):
     for i, c in enumerate(heavy):
         cases.insert(min(len(cases), i * (stride + 1)), c)
     return {
+        'rule_more': 'order of the two parity options alternates with the record length; option-flip sequence on one array; alternating record on the old Nyquist frequency when refining; object histories with running_average / rebase_displacement / remove_average',
         'cases': cases,
         'rule': 'grid points (dt, target, n) with n*dt >= 2*max(dt,target) (exact, decimal reading): menu dt x menu target x n in %s; '
                 '+ every (dt, target) of the menus with the smallest n of the domain and that n + 1; + target = dt*q*(1+eps), q in '
